@@ -43,6 +43,8 @@ Update(i, x, w) ==
   /\ i \in Live /\ w >= 1 /\ x \notin DOMAIN obj[i].stream
   /\ obj' = [obj EXCEPT ![i] = [@ EXCEPT !.n = @ + 1, !.cumWt = @ + w, !.wtMax = Max(@, w), !.stream = (x :> w) @@ @]]
  
+\* update with weight 0: ignored, no observable changes
+UpdateIgnored(i) == i \in Live /\ UNCHANGED vars
 Merged(a, b) == [k |-> Min(a.k, b.k), n |-> a.n + b.n, cumWt |-> a.cumWt + b.cumWt, wtMax |-> Max(a.wtMax, b.wtMax),
                  stream |-> b.stream @@ a.stream]
 Merge(i, j) ==
